@@ -500,13 +500,13 @@ func rulePairCacheCount(c *Ctx) {
 				}
 			case ssa.CallInstruction:
 				if _, ok := isCallTo(in, addCount); ok {
-					return []Ev{{Kind: "count+1", Note: "addCount"}}
+					return []Ev{{Kind: "count+1", Note: "addCount", Stop: true}}
 				}
 				if call, ok := isCallTo(in, removeCount); ok {
 					if k, ok := constInt(callArgs(call.Common())[1]); ok && k == 1 {
-						return []Ev{{Kind: "count-1"}}
+						return []Ev{{Kind: "count-1", Stop: true}}
 					}
-					return []Ev{{Kind: "count?", Note: "removeCount with non-constant"}}
+					return []Ev{{Kind: "count?", Note: "removeCount with non-constant", Stop: true}}
 				}
 			case *ssa.Return:
 				if fr == t.RootFr && len(x.Results) == 2 {
